@@ -61,6 +61,23 @@ class MStr:
             last = z3.If(z3.And(self.in_view(p), z3.Not(is_ws(self.chars[p]))), p, last)
         return MStr(self.chars, z3.If(first == -1, self.start, first), z3.If(first == -1, 0, last - first + 1))
 
+    def _edges(self):
+        first = z3.IntVal(-1)
+        for p in reversed(range(self.L)):
+            first = z3.If(z3.And(self.in_view(p), z3.Not(is_ws(self.chars[p]))), p, first)
+        last = z3.IntVal(-1)
+        for p in range(self.L):
+            last = z3.If(z3.And(self.in_view(p), z3.Not(is_ws(self.chars[p]))), p, last)
+        return first, last
+
+    def lstrip(self, chars=None, guard=True):
+        first, last = self._edges()
+        return MStr(self.chars, z3.If(first == -1, self.start, first), z3.If(first == -1, 0, self.start + self.length - first))
+
+    def rstrip(self, chars=None, guard=True):
+        first, last = self._edges()
+        return MStr(self.chars, self.start, z3.If(first == -1, 0, last - self.start + 1))
+
     def replace(self, a, b, guard=True):
         if not (isinstance(a, str) and isinstance(b, str) and len(a) == 1 and len(b) == 1):
             raise NotImplementedError("replace of single concrete characters only")
